@@ -154,3 +154,10 @@ def run(eng, tier):
         'trusted_base': ['interpreter models', 'lemmas L-mono, L-fit, invariants I3/I4/I6/I7 for discharged refusals (DESIGN §5-6)'],
         'not_decided': [], 'assumptions': ['rust_decimal comparison is a total order on parsed prices'],
     }
+
+import probes as _pb
+PROBES = [
+    _pb.drop_facts('execute', 'ExecuteMatch', 'BID.quote.denom == ASK.quote'),
+    _pb.drop_facts('execute', 'ExecuteMatch', 'ASK.size < msg.size'),
+    _pb.drop_facts('execute', 'ExecuteMatch', 'ordcmp('),
+]
